@@ -1,5 +1,5 @@
 #!/bin/bash
-# selftest.sh [mutants|seeded|all] : sensitivity self-test.  Applies each breaking change to a scratch
+# selftest.sh [mutants|seeded|refactor|all] : sensitivity self-test.  Applies each breaking change to a scratch
 # worktree of /repo under /tmp (never to /repo), confirms the existing suite still passes with it, and
 # expects the mapped property's quick check to report a VIOLATION.  Prints one line per (change, check).
 what=${1:-all}
@@ -17,5 +17,20 @@ if [ "$what" = mutants ] || [ "$what" = all ]; then
 fi
 if [ "$what" = seeded ] || [ "$what" = all ]; then
   for d in seeded/*/; do id=$(basename $d); run $d/patch.diff ${id%%-*}; done
+fi
+if [ "$what" = refactor ] || [ "$what" = all ]; then
+  # behaviour-preserving refactors: every check must stay silent (exit 0)
+  export GOFLAGS=-mod=mod GOPROXY=off GOSUMDB=off GOTOOLCHAIN=local
+  for patch in mutants/refactor-*.patch; do
+    wt=$(mktemp -d /tmp/refwt.XXXXXX); rmdir "$wt"
+    git -C /repo worktree add --detach "$wt" HEAD >/dev/null 2>&1
+    git -C "$wt" apply "$(readlink -f $patch)" || { echo "refactor patch does not apply"; fail=1; }
+    (cd "$wt" && go build ./... && go test -vet=off -count=1 ./... >/dev/null 2>&1) || { echo "suite fails on refactor"; fail=1; }
+    for id in $(python3 -c "import plan; print(' '.join(plan.PLAN))"); do
+      out=$(VERIF_REPO_DIR="$wt" ./check $id quick 2>&1); rc=$?
+      if [ $rc -eq 0 ]; then echo "SILENT  $(basename $patch) under $id"; else echo "ALARM   $(basename $patch) under $id (rc=$rc)"; echo "$out" | grep -E "VIOLATION|INCONCL" | head -3; fail=1; fi
+    done
+    git -C /repo worktree remove --force "$wt" >/dev/null 2>&1; rm -rf "$wt"
+  done
 fi
 exit $fail
